@@ -45,7 +45,17 @@ def termify(a: Arr):
     if a.ndim not in (1, 2):
         raise Unsupported("matrix term of an array of rank > 2")
     known = c.memo.setdefault("termified", [])
-    for (b, t) in known:
+    depth = c.memo.get("termify_depth", 0)
+    c.memo["termify_depth"] = depth + 1
+    try:
+        return _termify(a, c, known, depth)
+    finally:
+        c.memo["termify_depth"] = depth
+
+
+def _termify(a, c, known, depth):
+    # nested call (a cell of a known array itself needs a term): no extensionality search, or it would not terminate
+    for (b, t) in (known if depth == 0 else []):
         if b.ndim != a.ndim:
             continue
         sh = And_(*[sym.eq(x, y) for x, y in zip(a.shape, b.shape)])
